@@ -1,9 +1,11 @@
 from .. import facts
 from ..common import Report, finish
-from ..rules import carry, c06, c15
+from ..rules import carry, c06, c15, gate
 from .. import flow, mir
 
-RULE = ("the carry / borrow returned by every adc / sbb / mac / carrying_* / conditional_adc / conditional_sbb / "
+RULE = ("(gate) the `is_some` flag of checked_add / checked_sub on Limb, Uint and BoxedUint depends on both operands; "
+        "(zip) mixed-width arithmetic never zips the two operands' limbs without aborting on unequal lengths; (carry) "
+        "the carry / borrow returned by every adc / sbb / mac / carrying_* / conditional_adc / conditional_sbb / "
         "overflowing_add / overflowing_sub call in the crate is consumed, or is dropped in a wrapping_* form (by "
         "definition) or at a reviewed site with a stated reason")
 
@@ -29,6 +31,8 @@ def run(tier, t0):
                   counter="carry_returning_calls_outside_modular")
         eng = flow.Engine(f, flow.Policy())
         eng.run_all(collect=False)
+        gate.run(f, rep, cfg, lambda b, fam: fam in ("add", "sub", "neg") and "int::Int<" not in (b.get("impl_self") or b["id"]),
+                 "c04.gate", "checked_add_sub_operations")
         c06.run_zip(f, rep, cfg, eng, scope=_arith_scope, prefix="c04.zip", counter="mixed_width_arithmetic_bodies",
                     require_eq=True, what="arithmetic routine")
     stale = {}
@@ -37,6 +41,7 @@ def run(tier, t0):
     rep.stale = sorted(k for k, v in stale.items() if len(v) == 2)
     rep.floor("carry_returning_calls_outside_modular", 230)
     rep.floor("mixed_width_arithmetic_bodies", 10)
+    rep.floor("checked_add_sub_operations", 8)
     rep.floor("zip_call_bodies_positive_control", 3)
     return finish(rep, tier, t0,
                   explanation="one structural clause of C04 (and of the multi-limb parts of C03/C07): a carry that is computed "
